@@ -10,8 +10,9 @@ pub const RW_BASE: u64 = 0x1000_0000;
 pub const RW_LEN: usize = 0x2000;
 pub const RO_BASE: u64 = 0x1800_0000;
 pub const RO_LEN: usize = 0x1000;
-pub const STK_BASE: u64 = 0x3000_0000;
-pub const STK_LEN: usize = 0x1000;
+/// two pages around 0x3000_0000, so that a stack can straddle a 64 KiB boundary (carries out of SP)
+pub const STK_BASE: u64 = 0x2fff_f000;
+pub const STK_LEN: usize = 0x2000;
 
 #[derive(Clone, Copy, Debug, PartialEq, Eq)]
 pub enum ArenaKind {
